@@ -256,7 +256,8 @@ def check_obligations(module, allow_native=()):
         if ax is None:
             res["problems"].append(f"theorem {t}: no `#print axioms` output (must be listed at the end of the Props file)")
             continue
-        extra = [a for a in ax if a not in ALLOWED_AXIOMS and not any(a.startswith(p) for p in allow_native)]
+        extra = [a for a in ax if a not in ALLOWED_AXIOMS
+                 and not ("native_decide" in allow_native and "._native.native_decide." in a)]
         if "sorryAx" in ax or extra:
             res["problems"].append(f"theorem {t}: axioms {ax}")
             continue
